@@ -28,7 +28,9 @@ def projects():
 
     naming = [rxn(1, ["H", "e-"], ["H-"]), rxn(2, ["H+", "E"], ["H"]), rxn(3, ["He++", "e-"], ["He+"]), rxn(4, ["oH2", "pH2D+"], ["oH2D+", "pH2"]), rxn(5, ["H2*", "H"], ["H2", "H"]),
               rxn(6, ["c-C3H2", "H+"], ["l-C3H2", "H+"]), rxn(7, ["Si", "CR"], ["Si+", "e-"], 101), rxn(8, ["N2", "D+"], ["N2D+"]), rxn(9, ["CO"], ["#CO"], 200), rxn(10, ["GRAIN0", "e-"], ["GRAIN-"]), rxn(11, ["Si+", "Si+"], ["Si++++", "e-", "e-"]),
-              rxn(12, ["HCO+", "e-"], ["H", "CO"]), rxn(13, ["H", "#H"], ["H2"]), rxn(14, ["O-", "e-"], ["O--"]), rxn(15, ["GRAIN-", "e-"], ["GRAIN--"]), rxn(16, ["O", "e-"], ["O-"])]
+              rxn(12, ["HCO+", "e-"], ["H", "CO"]), rxn(13, ["H", "#H"], ["H2"]), rxn(14, ["O-", "e-"], ["O--"]), rxn(15, ["GRAIN-", "e-"], ["GRAIN--"]), rxn(16, ["O", "e-"], ["O-"]),
+              # a molecule and its ice that take part in the same number of reactions (ties in the connectivity order)
+              rxn(17, ["O2"], ["#O2"], 200), rxn(18, ["#O2"], ["O2"], 201), rxn(19, ["NH3"], ["#NH3"], 200), rxn(20, ["#NH3"], ["NH3"], 201)]
     out = [("naming", "net.naunet", _native_file(naming), "naunet", {}, "hh93")]
     # required (extra) species that also occur in reactions -- same spelling, the other electron spelling, listed twice -- and one that does not
     out.append(("required-overlap", "net.naunet", _native_file(naming[:8] + [naming[11]]), "naunet", {"extra": "H,He,E,H,CO,Ne"}, ""))
@@ -122,7 +124,9 @@ def check_project(chk, name, fname, content, fmt, opt, model, kind):
         chk.violation(f"{tag}:summary", f"[summary] of naunet_config.toml disagrees with the macros (NSPECIES={NS}, summary {summ['num_of_species']}, aliases {alias[:6]}...)", {"case": name})
     # 5. Enzo patch tables
     if kind == "dense":
-        env = dict(os.environ, TQDM_DISABLE="1", PYTHONHASHSEED="0")
+        # the patch is rendered by a separate interpreter run with another string-hash seed: the slot order must
+        # not depend on set iteration order
+        env = dict(os.environ, TQDM_DISABLE="1", PYTHONHASHSEED="7")
         child_env(env)
         r = subprocess.run([proj.PY, "-c", "import sys; from naunet.console import main; sys.exit(main())", "render", "--no-interaction", "--force", "--patch", "enzo"], capture_output=True, text=True, cwd=pdir, env=env, timeout=600)
         eh = os.path.join(pdir, "enzo", "naunet_enzo.h")
